@@ -63,6 +63,9 @@ func runBackend(ctx context.Context, b backend, file string, timeoutS int) (stri
 	case "unsat", "sat":
 		return fl, o
 	}
+	if strings.HasPrefix(fl, "(error") {
+		return "error", o
+	}
 	return "unknown", o
 }
 
@@ -109,8 +112,11 @@ func solveScript(dir, name, script string, timeoutS int, only []string) SolveRes
 			cancel()
 			return res
 		}
-		if res.Output == "" {
+		if res.Output == "" || x.st == "error" {
 			res.Output = x.o
+		}
+		if x.st == "error" && x.b != "cvc5" {
+			res.Status = "error"
 		}
 		res.Time = x.t
 	}
